@@ -478,6 +478,36 @@ def run(p, report, tier):
         for o in sub.obligations:
             if o.rule == rid and pick(o):
                 report.add("R8.12", o.entity, o.construct, o.loc, o.ok, detail=o.detail)
+    report.rule("R8.13", "what enters the score of a candidate is computed from that candidate's own row or from the whole "
+                "pool, never from the SET of candidates: a reduction over all rows of a per-candidate matrix (no axis) is "
+                "not recombined with such a matrix, per-row reductions keep the reduced axis, and count statistics "
+                "(np.unique(..., return_counts=True), np.bincount) are not taken over a selection by the candidate mapping",
+                floor=2)
+    from ..shapes import Kinds
+    for f in funcs:
+        bad, good = Kinds(f.node).mismatches()
+        for n in good:
+            report.add("R8.13", f.qual, f"`{norm_stmt(n, 60)}` combines per-candidate quantities row by row", f"{f.file}:{n.lineno}", True,
+                       detail="reduced axis kept")
+        for n in bad:
+            report.add("R8.13", f.qual, f"`{norm_stmt(n, 60)}` combines per-candidate quantities row by row", f"{f.file}:{n.lineno}", False,
+                       detail="a statistic over ALL candidate rows (or a vector over them aligned with the class axis) scales each "
+                              "candidate's row: the utility of a sample changes when other candidates are removed")
+        mp = c01.mapping_roles(f.node, set())
+        for c in ast.walk(f.node):
+            if not isinstance(c, ast.Call):
+                continue
+            cn = (c01.callname(c) or "").split(".")[-1]
+            if not ((cn == "unique" and any(k.arg == "return_counts" for k in c.keywords)) or cn in ("bincount", "Counter")):
+                continue
+            a0 = c.args[0] if c.args else None
+            over_cand = a0 is not None and any(isinstance(x, ast.Subscript) and (names_in(x.slice) & (mp | {"candidates"}))
+                                               for x in ast.walk(a0))
+            if mp or over_cand:
+                report.add("R8.13", f.qual, f"counts `{norm_stmt(c, 60)}` are taken over the pool", f"{f.file}:{c.lineno}", not over_cand,
+                           detail="not restricted to the candidates" if not over_cand else
+                           "the counts are taken over the candidates only: a cluster / cell is large or small depending on "
+                           "which other samples are offered, and with it the score of every candidate")
     report.assumptions += ["restriction invariance and permutation equivariance of the numbers are not decided",
                            "index spaces are inferred only from the idioms listed in the checker; unknown never fires"]
 
